@@ -2,7 +2,10 @@
 
 package gtree
 
-import "iter"
+import (
+	"context"
+	"iter"
+)
 
 func init() {
 	verifRegister("VerifC13", VerifC13)
@@ -56,6 +59,10 @@ func c13Op(kind uint, t *c13Tree) (string, error) {
 		w := newVerifWriter()
 		err := OutputFromRoot(w, t.root.real, WithDryRun(), WithEncodeJSON())
 		return w.out, err
+	case 6: // JSON record through the massive pipeline (the caller's tree is handed to its stages)
+		w := newVerifWriter()
+		err := OutputFromRoot(w, t.root.real, WithMassive(context.Background()), WithEncodeJSON())
+		return w.out, err
 	}
 	// JSON record
 	w := newVerifWriter()
@@ -89,10 +96,10 @@ func c13SameAsFresh(kind uint, t *c13Tree, out string, err error) bool {
 }
 
 func c13Want(kind uint, t *c13Tree, out string) bool {
-	if kind >= 4 {
+	if kind == 4 || kind == 5 {
 		return true // the content of the dry-run report is C09's; here only: a function of the tree (C13.fresh)
 	}
-	if kind == 3 {
+	if kind == 3 || kind == 6 {
 		return encMatches(encJSON, out, []*rec{recOfM(t.root)})
 	}
 	return out == mRender(t.root, dLD, dLI, dMD, dMI)
@@ -132,11 +139,18 @@ func VerifC13() {
 	ops := 0
 	// one kind of operation per history (verifN() >= 100: the dry-run kinds, a job of their own)
 	kind := verifChoose("op", 0, 3)
-	if verifN() >= 100 {
+	if verifN() >= 200 {
+		kind = 6 // the massive JSON route, a job of its own
+	} else if verifN() >= 100 {
 		kind = verifChoose("op", 4, 5)
 	}
 	for i := 0; i < n; i++ {
-		step := verifChoose("step", 0, 6)
+		// (the refusing-writer step only in histories of up to four steps: five steps with seven kinds do not fit the budget)
+		maxStep := uint(6)
+		if n >= 5 {
+			maxStep = 5
+		}
+		step := verifChoose("step", 0, maxStep)
 		switch step {
 		case 0: // Add
 			t := trees[verifChoose("tree", 0, uint(len(trees)-1))]
@@ -149,8 +163,8 @@ func VerifC13() {
 			t := trees[verifChoose("tree", 0, uint(len(trees)-1))]
 			verifContext("C13.op")
 			out, err := c13Op(kind, t)
-			verifAssert(err == nil || kind >= 4, "C13.nil")
-			if kind != 3 {
+			verifAssert(err == nil || kind == 4 || kind == 5, "C13.nil")
+			if kind != 3 && kind != 6 {
 				verifObserve("out", out)
 			}
 			verifAssert(c13Want(kind, t, out), "C13.fn")
@@ -197,8 +211,8 @@ func VerifC13() {
 	for _, t := range trees {
 		verifContext("C13.final")
 		out, err := c13Op(kind, t)
-		verifAssert(err == nil || kind >= 4, "C13.nil")
-		if kind != 3 {
+		verifAssert(err == nil || kind == 4 || kind == 5, "C13.nil")
+		if kind != 3 && kind != 6 {
 			verifObserve("final", out)
 		}
 		verifAssert(c13Want(kind, t, out), "C13.fn")
